@@ -22,6 +22,8 @@ GROUPS = {
     "stabletext": {"dir": "internal/verifmon/stabletext"},
     "stablecomp": {"dir": "internal/verifmon/stablecomp"},
     "stableconc": {"dir": "internal/verifmon/stableconc"},
+    "stableopt":  {"dir": "internal/verifmon/stableopt"},
+    "stablelink": {"dir": "internal/verifmon/stablelink"},
 }
 
 # shared library packages injected next to the monitors: virtual dir -> /verif dir
@@ -45,14 +47,14 @@ PROPS = {
     "C04": P("stablecomp", "TestC04"),
     "C09": P("stablecomp", "TestC09", race=True, batches=(2, 4), workers=8),
     "C10": P("stablecomp", "TestC10"),
-    "C15": P("stablecomp", "TestC15"),
-    "C18": P("stablecomp", "TestC18"),
-    "C19": P("stablecomp", "TestC19"),
-    "C20": P("stablecomp", "TestC20"),
-    "C21": P("stablecomp", "TestC21"),
-    "C22": P("stablecomp", "TestC22"),
-    "C23": P("stablecomp", "TestC23"),
-    "C24": P("stablecomp", "TestC24"),
+    "C15": P("stablelink", "TestC15"),
+    "C18": P("stablelink", "TestC18"),
+    "C19": P("stablelink", "TestC19"),
+    "C20": P("stableopt", "TestC20"),
+    "C21": P("stableopt", "TestC21"),
+    "C22": P("stableopt", "TestC22"),
+    "C23": P("stableopt", "TestC23"),
+    "C24": P("stablelink", "TestC24"),
     # stableconc: schedules / faults on the stable compiler
     "C05": P("stableconc", "TestC05", race=True, batches=(4, 8), workers=4),
     "C06": P("stableconc", "TestC06", race=True, batches=(4, 8), workers=4),
